@@ -509,17 +509,18 @@ class Contour(BaseObject):
                 yMax += y
                 bounds = (xMin, yMin, xMax, yMax)
             self._representations["defcon.contour.controlPointBounds"][None] = bounds
-        self.disableNotifications(observer=self)
-        self.postNotification("Contour.PointsChanged")
-        self.enableNotifications(observer=self)
         # only the two representations patched above may survive:
         # everything else that Contour.PointsChanged destroys
-        # must still be destroyed.
+        # must still be destroyed, and before the observers
+        # of that notification look at the contour.
         for name, dataDict in self.representationFactories.items():
             if name in ("defcon.contour.bounds", "defcon.contour.controlPointBounds"):
                 continue
             if "Contour.PointsChanged" in dataDict["destructiveNotifications"]:
                 self.destroyRepresentation(name)
+        self.disableNotifications(observer=self)
+        self.postNotification("Contour.PointsChanged")
+        self.enableNotifications(observer=self)
         self.dirty = True
 
     # ------------
